@@ -126,8 +126,10 @@ def handleProg (fields : List SExp) : String :=
       let sched : String := match Program.new fl cls {} y86FixedFunctions stmts with
         | .ok p =>
           let known := p.constants.keys ++ p.banks.flatMap (fun b => b.signals.map (·.2.1))
-          let ia := decodeIActions (field fields "iactions")
-          if ia.isEmpty then "-" else if schedValid known ia then "sched-ok" else "sched-INVALID"
+          let all := fields.filterMap fun f => match f with
+            | .list (.atom "iactions" :: rest) => some (decodeIActions rest)
+            | _ => none
+          if all.isEmpty then "-" else if all.all (schedValid known) then "sched-ok" else "sched-INVALID"
         | .error _ => "-"
       let fs := Spec.faults fl cls.isLower cls.isUpper stmts
       if !fs.isEmpty then
